@@ -823,7 +823,9 @@ class TransactionBuilder:
         required_lovelace = min_lovelace_post_alonzo(
             TransactionOutput(output.address, attempt_amount), self.context
         )
-        attempt_amount.coin = required_lovelace
+        # The output may end up holding more than its minimum ADA (the last change output receives all the
+        # remaining ADA, which can need a wider integer): measure with the larger of the two
+        attempt_amount.coin = max(required_lovelace, current_amount.coin)
 
         return len(attempt_amount.to_cbor()) > max_val_size
 
@@ -861,8 +863,9 @@ class TransactionBuilder:
                         output.amount += temp_value
                     multi_asset_arr.append(output.amount.multi_asset)
 
-                    # Create a new output
-                    base_coin = Value(coin=0)
+                    # Create a new output (sized, like the first one, for all the ADA of the change: any of them
+                    # may turn out to be the last one, which receives what is left)
+                    base_coin = Value(coin=change_estimator.coin)
                     output = TransactionOutput(change_address, base_coin)
 
                     # Continue building output from where we stopped
@@ -883,7 +886,7 @@ class TransactionBuilder:
             required_lovelace = min_lovelace_post_alonzo(
                 TransactionOutput(change_address, updated_amount), self.context
             )
-            updated_amount.coin = required_lovelace
+            updated_amount.coin = max(required_lovelace, updated_amount.coin)
 
             if len(updated_amount.to_cbor()) > max_val_size:
                 output.amount = old_amount
